@@ -124,7 +124,7 @@ func (x *Xlat) merge(a, b *State) *State {
 		if !ok {
 			if isRegionKey(k) {
 				vb = x.initial(k, va.Sort)
-			} else if strings.HasPrefix(k, "defer$") || strings.HasPrefix(k, "GW$") {
+			} else if strings.HasPrefix(k, "defer$") || strings.HasPrefix(k, "GW$") || k == "$panicking" {
 				vb = TFalse
 			} else {
 				continue
@@ -141,7 +141,7 @@ func (x *Xlat) merge(a, b *State) *State {
 		if _, ok := a.env[k]; ok {
 			continue
 		}
-		if strings.HasPrefix(k, "defer$") || strings.HasPrefix(k, "GW$") {
+		if strings.HasPrefix(k, "defer$") || strings.HasPrefix(k, "GW$") || k == "$panicking" {
 			out.env[k] = x.ctx.Define("m$"+k, Ite(cond, TFalse, vb))
 			continue
 		}
